@@ -296,7 +296,19 @@ def t_beyond():
                     judge(stats, doc, toks, "beyond-limit")
                     n += 1
                     stats.nt("beyond", canon(doc), P.encode(toks))
-    stats.subspaces.append({"name": "member names that are integers beyond +-(2**53-1) x 3 document shapes", "size": n, "exhaustive": True})
+    # names exactly at and just inside the limit are ordinary names / indices: they must resolve (and, on arrays, be out of range)
+    for b in ("9007199254740991", "-9007199254740991", "9007199254740990", "-9007199254740990", "900719925474099", "99999999999"):
+        for doc in ({b: [10, 11], "a": 1}, {"x": {b: {"k": None}}}, [{b: 0}], [1, 2], {"a": [0]}):
+            for parts, _ in list(nodes(doc)):
+                toks = [str(p) for p in parts]
+                if b in toks:
+                    judge(stats, doc, toks, "at-limit")
+                    n += 1
+                    stats.nt("at-limit", canon(doc), P.encode(toks))
+            judge(stats, doc, [b], "at-limit")
+            judge(stats, doc, ["a", b], "at-limit")
+            n += 2
+    stats.subspaces.append({"name": "member names that are integers beyond, at and just inside +-(2**53-1) x 3-5 document shapes", "size": n, "exhaustive": True})
     return stats
 
 
